@@ -224,10 +224,13 @@ def statelessness(ck: Check):
     """the result for a text does not depend on what the same parser object parsed before: all sequences of 3 over a pool (explorer choices)"""
     from hpl.parser import HplParser
     pools = {
-        'predicate': ['{ x > 1 }', '{ x > }', '{ abs(x) and y }', '{ forall v in xs: @v > 0 }', '{ foo(x) > 1 }', '{ "a" = s }', '{ x in [1 to 2]! }', '$'],
+        'predicate': ['{ x > 1 }', '{ x > }', '{ abs(x) and y }', '{ forall v in xs: @v > 0 }', '{ foo(x) > 1 }', '{ "a" = s }', '{ x in [1 to 2]! }', '$',
+                      '{ s = "a b" }', '{ s = "a  b" }', '{ s = "a\tb" }', '{ x\xa0> 1 }'],
         'property': ['globally: no a', 'globally: no', 'after a as A: some b {x > @A.x}', 'after a as A: some b as A', 'globally: a causes b within 1 s', 'globally: (a or a) causes b',
-                     '# id: i\n# id: j\nglobally: no a', 'globally: no a {x + 1}'],
-        'file': ['globally: no a\nglobally: some b', 'globally: no a\nglobally: some', '# id: p\nglobally: no a {@Z.x > 1}', '', '# title: "t"\nafter a until b: c forbids d'],
+                     '# id: i\n# id: j\nglobally: no a', 'globally: no a {x + 1}', '# title: "x"\n# title: "y"\nglobally: no a', '# id: k\n# title: "t"\nglobally: no a',
+                     '# description: "d"\n# author: "me"\nglobally: no a', 'globally: no a within 1 s', 'globally: no a within 1\xa0s', '# title: "t t"\nglobally: no a', '# title: "t  t"\nglobally: no a'],
+        'file': ['globally: no a\nglobally: some b', 'globally: no a\nglobally: some', '# id: p\nglobally: no a {@Z.x > 1}', '', '# title: "t"\nafter a until b: c forbids d',
+                 '# id: q\n# id: r\nglobally: no a', '# title: "u"\n# author: "me"\nglobally: no a', '# description: "only"\nglobally: some b', 'globally: some b'],
     }
     makers = {'predicate': HplParser.predicate_parser, 'property': HplParser.property_parser, 'file': HplParser.specification_parser}
     total = 0
@@ -293,6 +296,11 @@ def main() -> int:
                 continue
             for m in mutate(toks, rnd, LEXEME_POOL):
                 texts.append((kind, ' '.join(m)))
+    for t in ('# title: "x"\n# title: "y"\nglobally: no a', '# description: "x"\n# description: "y"\nglobally: no a', '# title: "x"\n# id: i\n# title: "y"\nglobally: no a',
+              '# id: i\n# title: "x"\n# id: j\nglobally: no a', '# colour: "red"\nglobally: no a', '# id: "quoted"\nglobally: no a', '#\nglobally: no a', '# id:\nglobally: no a'):
+        texts.append(('property', t))
+        texts.append(('file', t))
+        texts.append(('file', 'globally: some z\n' + t))
     # raw strings
     for kind in ('expression', 'predicate', 'property', 'file'):
         for _ in range(150 if ck.tier == 'quick' else 1500):
